@@ -85,7 +85,8 @@ class CWLDependencyListener(ECMAScriptListener):
         self, ctx: ECMAScriptParser.MemberDotExpressionContext
     ) -> None:
         if self._get_name(ctx.singleExpression()) in self.names.global_names():
-            if dep := self._get_name(ctx.identifierName()):
+            # identifierName is `Identifier | reservedWord`: `inputs.default` is valid ES5
+            if dep := ctx.identifierName().getText():
                 self.deps.add(dep)
 
     def enterMemberIndexExpression(
